@@ -5,6 +5,7 @@ import CasbinV.Driver.Enforcer
 import CasbinV.Driver.Matcher
 import CasbinV.Driver.Persist
 import CasbinV.Driver.Fast
+import CasbinV.Driver.RoleManager
 /-! Line-protocol driver: `driver <family>`; exactly one answer line per input line.
     Lines starting with `#` are echoed; `#reset` also resets a stateful family to its initial state.
     Unknown or malformed lines answer `bad-op` (never defaulted). -/
@@ -23,7 +24,8 @@ def families : List (String × Family) := [
   ("enf", { σ := Casbin.Driver.Enf.DSt, init := {}, step := Casbin.Driver.Enf.step }),
   ("matcher", { σ := Casbin.Driver.Matcher.Table, init := [], step := Casbin.Driver.Matcher.step }),
   ("persist", { σ := Casbin.Driver.Persist.DState, init := {}, step := Casbin.Driver.Persist.handle }),
-  ("fast", { σ := Option Casbin.Driver.Fast.St, init := none, step := Casbin.Driver.Fast.step })
+  ("fast", { σ := Option Casbin.Driver.Fast.St, init := none, step := Casbin.Driver.Fast.step }),
+  ("rm", { σ := Casbin.Driver.RoleManager.St, init := {}, step := Casbin.Driver.RoleManager.step })
 ]
 
 partial def runFamily (h out : IO.FS.Stream) (fam : Family) (s : fam.σ) : IO Unit := do
